@@ -60,7 +60,7 @@ MANIFEST = {
 }
 MODULES = ["PrimaiteModel.Props.C16", "PrimaiteModel.Props.C16Conn", "PrimaiteModel.Props.C16Transport",
            "PrimaiteModel.Props.C16Timeout", "PrimaiteModel.Props.C16Admin", "PrimaiteModel.Props.C16Local",
-           "PrimaiteModel.Props.C16Chain", "PrimaiteModel.Props.C16Ends", "PrimaiteModel.Props.C16Handle"]
+           "PrimaiteModel.Props.C16Chain", "PrimaiteModel.Props.C16Ends", "PrimaiteModel.Props.C16Handle", "PrimaiteModel.Props.C16Logoff"]
 EXE = "drv_c16"
 
 
